@@ -21,6 +21,8 @@ pub struct Layout {
     pub gaps: Vec<usize>,
     /// drop the separator next to brackets, commas and semicolons
     pub tight: bool,
+    /// drop every separator the lexer does not need to tell two tokens apart (`a.balance`, `x+=1`)
+    pub compact: bool,
     pub ending: usize,
     pub label: String,
 }
@@ -44,6 +46,18 @@ pub fn pragma_gaps(toks: &[String]) -> Vec<bool> {
     v
 }
 
+/// must a separator stay between two adjacent tokens so that the lexer still sees two tokens?
+fn needs_separator(a: &str, b: &str) -> bool {
+    let la = a.chars().last().unwrap_or(' ');
+    let fb = b.chars().next().unwrap_or(' ');
+    let word = |c: char| c.is_alphanumeric() || c == '_' || c == '$' || c == '"' || c == '\'';
+    let op = |c: char| "+-*/%=<>!&|^~?:.".contains(c);
+    if never_merges(a) || never_merges(b) {
+        return false;
+    }
+    (word(la) && word(fb)) || (op(la) && op(fb)) || (la.is_ascii_digit() && fb == '.') || (la == '.' && fb.is_ascii_digit())
+}
+
 fn never_merges(t: &str) -> bool {
     matches!(t, "(" | ")" | "[" | "]" | "{" | "}" | "," | ";")
 }
@@ -58,9 +72,9 @@ pub fn render(toks: &[String], l: &Layout) -> (String, Vec<usize>) {
         if pg[i] && !WS_SEPS.contains(&l.gaps[i]) {
             sep = " ";
         }
-        let drop = l.tight
-            && !pg[i]
-            && ((i > 0 && i < n && (never_merges(&toks[i - 1]) || never_merges(&toks[i]))) || i == 0 || i == n);
+        let drop = !pg[i]
+            && ((l.tight && ((i > 0 && i < n && (never_merges(&toks[i - 1]) || never_merges(&toks[i]))) || i == 0 || i == n))
+                || (l.compact && (i == 0 || i == n || !needs_separator(&toks[i - 1], &toks[i]))));
         if !drop {
             s.push_str(sep);
         }
@@ -84,14 +98,24 @@ pub fn uniform(n: usize) -> Vec<Layout> {
         for e in 0..ENDINGS.len() {
             let mut gaps = vec![s; n + 1];
             gaps[0] = 0;
-            v.push(Layout { gaps, tight: false, ending: e, label: format!("uniform sep{} end{}", s, e) });
+            v.push(Layout { gaps, tight: false, compact: false, ending: e, label: format!("uniform sep{} end{}", s, e) });
         }
     }
     for e in 0..ENDINGS.len() {
         let mut gaps = vec![0; n + 1];
         // no trailing separator at all: the last token ends the file (unterminated last line)
         gaps[n] = 0;
-        v.push(Layout { gaps, tight: true, ending: e, label: format!("tight end{}", e) });
+        v.push(Layout { gaps: gaps.clone(), tight: true, compact: false, ending: e, label: format!("tight end{}", e) });
+        v.push(Layout { gaps, tight: false, compact: true, ending: e, label: format!("compact end{}", e) });
+    }
+    // leading white space before the first token: line feeds, CRLF, blank lines, comments
+    for s in 1..SEPS.len() {
+        let mut gaps = vec![0; n + 1];
+        gaps[0] = s;
+        v.push(Layout { gaps: gaps.clone(), tight: false, compact: false, ending: 1, label: format!("leading sep{}", s) });
+        let mut g2 = vec![1; n + 1];
+        g2[0] = s;
+        v.push(Layout { gaps: g2, tight: false, compact: false, ending: 0, label: format!("leading sep{} then one token per line", s) });
     }
     v
 }
@@ -103,7 +127,7 @@ pub fn single_deviations(n: usize) -> Vec<Layout> {
         for s in 1..SEPS.len() {
             let mut gaps = vec![0; n + 1];
             gaps[g] = s;
-            v.push(Layout { gaps, tight: false, ending: 0, label: format!("dev1 gap{} sep{}", g, s) });
+            v.push(Layout { gaps, tight: false, compact: false, ending: 0, label: format!("dev1 gap{} sep{}", g, s) });
         }
     }
     v
@@ -121,7 +145,7 @@ pub fn double_deviations(n: usize) -> Vec<Layout> {
                     let mut gaps = vec![0; n + 1];
                     gaps[g1] = s1;
                     gaps[g2] = s2;
-                    v.push(Layout { gaps, tight: false, ending: 0, label: format!("dev2 gap{}:sep{} gap{}:sep{}", g1, s1, g2, s2) });
+                    v.push(Layout { gaps, tight: false, compact: false, ending: 0, label: format!("dev2 gap{}:sep{} gap{}:sep{}", g1, s1, g2, s2) });
                 }
             }
         }
